@@ -143,7 +143,8 @@ def apply(data, known=None):
         for raw in d["fns"]:
             by_id[raw["id"]] = raw
     from . import renames as _ren
-    LOCAL_RENAMES[:] = _ren.normalize_locals(data, load_vars())
+    LOCAL_RENAMES[:] = _ren.normalize_param_order(data, load_vars())
+    LOCAL_RENAMES.extend(_ren.normalize_locals(data, load_vars()))
     unknown = {fid for fid, raw in by_id.items() if fid not in known and raw.get("kind") != "Closure" and "{closure" not in fid}
     if not unknown:
         return 0
